@@ -356,7 +356,35 @@ def r7_manifest_search_is_order_independent(cx):
           "from the body of the loop over the packs, the only ways out are the next iteration, an error, or `Ok(Some(<the pack at hand>))`: no path gives up the search on a pack of another kind (lines %s)" % gives_up)
 
 
+def r8_recorded_locations_are_relative(cx):
+    """'shipped' packagings are read from wherever the files are: a location recorded in the manifest by the creator is
+    empty (pack embedded in the file at hand) or relative to the manifest's directory -- the absolute path returned by
+    close_file() never reaches ManifestPackCreator::add_pack without passing diff_utf8_paths(.., parent of the manifest)"""
+    F = cx.F
+    f = F.one(impl_self="BasicCreator", item="finalize", closure=False)
+    b = F.body(f)
+    ap = b.calls(r"ManifestPackCreator::add_pack::<")
+    if len(ap) < 3:
+        raise AnchorLost("BasicCreator::finalize: add_pack sites: %d" % len(ap))
+
+    def relativiser(t):
+        if call_is(t, r"pathdiff::diff_utf8_paths", r"pathdiff::diff_paths"):
+            return True
+        c = t.get("callee") or {}
+        gid = c.get("rfn") if c.get("rfn") is not None else c.get("def_fn")
+        if gid is not None and "blocks" in F.fns[gid]:
+            return bool(F.body(F.fns[gid]).calls(r"pathdiff::diff_utf8_paths", r"pathdiff::diff_paths"))
+        return False
+    cf = {i for i, _ in b.calls(r"PackRecipient>::close_file$")}
+    for k, (i, t) in enumerate(sorted(ap, key=lambda x: x[1].get("ln", 0))):
+        o = b.origins(t["args"][2], stop_call=relativiser)
+        raw = sorted(b.term(x[1]).get("ln") for x in o if x[0] == "call" and x[1] in cf)
+        cx.ob("R8", "R8/finalize/add_pack#%d-location-is-relative" % k, not raw, f,
+              "the location given to add_pack is empty or made relative to the manifest's directory (absolute close_file() results reaching it unrelativised: lines %s)" % raw, ln=t.get("ln"))
+
+
 RULES = [
+    ("R8", r8_recorded_locations_are_relative, 3),
     ("R7", r7_manifest_search_is_order_independent, 2),
     ("R1", r1_chain, 6),
     ("R2", r2_whole_file, 4),
